@@ -344,6 +344,13 @@ class WriterTr:
                     c.locals[recv[1]] = new
                     return "match hm_get %s %s with\n    | None => (%s, Err %s)\n    | Some %s =>\n    let %s := hm_remove %s %s in\n    %s\n    end" % (
                         old, key, c.s, er, v, new, old, key, kv(v, c))
+            # let v = self.<translated method>(args)?   (work package carry: add_file)
+            if (inner[0] == "mcall" and strip_paren(inner[1]) == ("path", "self") and inner[2] in self.methods
+                    and inner[2] != "wrap_with_hash" and len(inner[3]) == self.methods[inner[2]]):
+                txt = "(%s %s %s)" % (inner[2], c.s, " ".join(self.ex(a, c) for a in inner[3]))
+                s2, v = self.fresh("s"), self.fresh("v")
+                c.s = s2
+                return "bindS %s (fun %s %s =>\n    %s)" % (txt, s2, v, kv(v, c))
             raise ParseError("`?` on " + show(inner)[:60])
         if e[0] == "mcall" and e[2] == "into" and not e[3]:
             inner = strip_paren(e[1])
@@ -475,6 +482,8 @@ class WriterTr:
                 d2, r, c.s, c.s, c.s, c.s, d2, r)
         if inner[0] == "mcall" and show(inner[1]) == "self.dest" and inner[2] == "finalize" and not inner[3]:
             return "(%s, dest_finalize (dest %s))" % (c.s, c.s)
+        if inner[0] == "mcall" and show(inner[1]) == "self.dest" and inner[2] == "flush" and not inner[3]:
+            return "(%s, dest_flush (dest %s))" % (c.s, c.s)
         raise ParseError("call " + show(inner)[:70])
 
     def try_stmt(self, inner, c, cont):
@@ -868,6 +877,7 @@ def writer_section(lib, out):
     out.append("  Variable sha256_finalize : bytes -> bytes.")
     out.append("  Variable footer_serialize_into : bytes -> list (bytes * N) -> list (N * FileInfo) -> bytes * res unit.")
     out.append("  Variable dest_finalize : bytes -> res unit.   (* the layers below: not at this level *)")
+    out.append("  Variable dest_flush : bytes -> res unit.      (* the layers below: not at this level *)")
     sub = []
     try:
         dump_translation(lib, sub)
@@ -916,7 +926,8 @@ def writer_section(lib, out):
         out.append("  (* macros: %s *)" % e)
         macros = {}
     order = [("mark_continuous_block", "unit"), ("mark_eof", "unit"), ("extend_file_size", "unit"),
-             ("start_file", "N"), ("append_file_content", "unit"), ("end_file", "unit"), ("finalize", "unit")]
+             ("start_file", "N"), ("append_file_content", "unit"), ("end_file", "unit"), ("finalize", "unit"),
+             ("add_file", "unit"), ("flush", "unit")]
     for name, rty in order:
         try:
             r = R.fn_text(lib, name, 0, within=r"impl<W: InnerWriterTrait> ArchiveWriter<'_, W> \{")
